@@ -86,6 +86,7 @@ func (m *objectCacheStorageMiddleware) HeadObject(ctx context.Context, bucketNam
 
 	headKey := headCacheKey(bucketName, key)
 	if obj, err := m.readHeadFromCache(ctx, headKey); err == nil {
+		obj.Key = key // storage.ObjectKey does not survive the JSON round trip of the head entry
 		if err = validateConditionalHead(obj, opts); err != nil {
 			return nil, err
 		}
@@ -94,6 +95,7 @@ func (m *objectCacheStorageMiddleware) HeadObject(ctx context.Context, bucketNam
 
 	objKey := objectCacheKey(bucketName, key)
 	if cachedObj, err := m.readObjectFromCache(ctx, objKey); err == nil {
+		cachedObj.Key = key
 		if err = validateConditionalHead(cachedObj, opts); err != nil {
 			return nil, err
 		}
@@ -105,6 +107,7 @@ func (m *objectCacheStorageMiddleware) HeadObject(ctx context.Context, bucketNam
 	v, err, _ := m.readGroup.Do(headKey, func() (interface{}, error) {
 		cachedHead, cacheErr := m.readHeadFromCache(ctx, headKey)
 		if cacheErr == nil {
+			cachedHead.Key = key
 			return cachedHead, nil
 		}
 
@@ -144,6 +147,7 @@ func (m *objectCacheStorageMiddleware) GetObject(ctx context.Context, bucketName
 
 	objKey := objectCacheKey(bucketName, key)
 	if cachedObj, err := m.readObjectFromCache(ctx, objKey); err == nil {
+		cachedObj.Key = key
 		if err = validateConditionalGet(cachedObj, opts); err != nil {
 			return nil, nil, err
 		}
@@ -163,6 +167,7 @@ func (m *objectCacheStorageMiddleware) GetObject(ctx context.Context, bucketName
 			return nil, nil, inflight.err
 		}
 		if cachedObj, err := m.readObjectFromCache(ctx, objKey); err == nil {
+			cachedObj.Key = key
 			if err = validateConditionalGet(cachedObj, opts); err != nil {
 				return nil, nil, err
 			}
@@ -179,6 +184,7 @@ func (m *objectCacheStorageMiddleware) GetObject(ctx context.Context, bucketName
 	if cachedObj, err := m.readObjectFromCache(ctx, objKey); err == nil {
 		m.finishInflightGet(objKey, inflight, nil)
 		inflight = nil
+		cachedObj.Key = key
 		if err = validateConditionalGet(cachedObj, opts); err != nil {
 			return nil, nil, err
 		}
